@@ -215,10 +215,19 @@ class BatchLoader(LoaderBase):
     ) -> DaskArrayList:
         """Construct batch loading tasks."""
         _backend = backend or Backend()
-        return DaskArrayList.concat(
-            loader.construct_loading_tasks(output_shape=output_shape, backend=_backend)
-            for loader in self.loaders
-        )
+        # NOTE: molecules are not necessarily sorted by the image ID. Tasks must be
+        # returned in the order of `self.molecules`, not in the order of the groups.
+        image_ids = self.molecules.features[IMAGE_ID_LABEL]
+        tasks: list[da.Array | None] = [None] * self.molecules.count()
+        for loader in self.loaders:
+            key = loader.molecules.features[IMAGE_ID_LABEL][0]
+            indices = (image_ids == key).arg_true().to_list()
+            loader_tasks = loader.construct_loading_tasks(
+                output_shape=output_shape, backend=_backend
+            )
+            for i, task in zip(indices, loader_tasks):
+                tasks[i] = task
+        return DaskArrayList(tasks)  # type: ignore
 
 
 class LoaderAccessor:
